@@ -336,8 +336,18 @@ def adversarial_step(rng, g: gen.DocGen, doc: Node, docs) -> Step:
     sc = g.schema
     r = rng.random()
     a, c = rand_range(rng, doc)
-    if r < 0.08:
-        # plain deletions across node boundaries (joins)
+    if r < 0.16:
+        # plain deletions, biased towards ranges that start and end in different nodes at the same depth (joins)
+        ps = boundary_positions(doc)
+        for _ in range(6):
+            x, y = sorted((rng.choice(ps), rng.choice(ps)))
+            try:
+                rx, ry = doc.resolve(x), doc.resolve(y)
+            except ValueError:
+                continue
+            if rx.depth == ry.depth and rx.depth > 0 and not rx.same_parent(ry):
+                a, c = x, y
+                break
         return ReplaceStep(a, c, Slice.empty, rng.random() < 0.15)
     if r < 0.3:
         sl = g.slice_from(rng.choice(docs))
@@ -373,6 +383,20 @@ def adversarial_step(rng, g: gen.DocGen, doc: Node, docs) -> Step:
     if r < 0.6:
         gf = rng.randint(a, c)
         gt = rng.randint(gf, c)
+        if rng.random() < 0.35:
+            # a gap that is NOT flat although both ends sit at the same depth (two sibling nodes)
+            ps = boundary_positions(doc)
+            for _ in range(8):
+                x, y = sorted((rng.choice(ps), rng.choice(ps)))
+                try:
+                    rx, ry = doc.resolve(x), doc.resolve(y)
+                except ValueError:
+                    continue
+                if rx.depth == ry.depth and rx.depth > 0 and not rx.same_parent(ry):
+                    gf, gt = x, y
+                    a = rng.choice([p for p in ps if p <= gf])
+                    c = rng.choice([p for p in ps if p >= gt])
+                    break
         other = rng.choice(docs)
         sl = g.slice_from(other)
         if rng.random() < 0.6:
@@ -482,11 +506,14 @@ def marky_doc(rng, g):
     sc = g.schema
     blocks = []
     tbs = [t for t in sc.nodes.values() if t.is_textblock and not t.has_required_attrs()]
-    for _ in range(rng.randint(2, 4)):
+    theme = rand_mark(rng, sc)          # one mark that recurs across the blocks
+    for _ in range(rng.randint(2, 5)):
         t = rng.choice(tbs)
         pieces = []
-        for _ in range(rng.randint(1, 5)):
+        for _ in range(rng.randint(1, 4)):
             ms = Mark.none
+            if rng.random() < 0.6 and t.allows_mark_type(theme.type):
+                ms = theme.add_to_set(ms)
             for _ in range(rng.randint(0, 2)):
                 m = rand_mark(rng, sc)
                 if t.allows_mark_type(m.type):
@@ -506,3 +533,14 @@ def marky_doc(rng, g):
         return d
     except ValueError:
         return g.doc(3)
+
+
+def excluding_mark(rng, sc, doc):
+    """a mark that excludes some mark type present in the document, if there is one"""
+    present = set()
+    doc.descendants(lambda n, *_: [present.add(m.type.name) for m in n.marks] and None)
+    cands = [t for t in sc.marks.values() if any(e.name in present and e.name != t.name for e in t.excluded)]
+    if not cands:
+        return rand_mark(rng, sc)
+    t = rng.choice(cands)
+    return t.create({k: "foo" for k, a in t.attrs.items() if not a.has_default} or None)
